@@ -848,15 +848,16 @@ class Tcp:
                 self.cl, self.delay, self.chunks, self.stop, self.err = cl, delay, [], threading.Event(), None
 
             def run(self):
+                import select
                 time.sleep(self.delay)
                 s, tail, t_end = self.cl.s, b"", None
-                s.settimeout(0.05)
                 while True:
                     try:
-                        d = s.recv(1 << 20)
-                    except socket.timeout:
+                        ready = select.select([s], [], [], 0.05)[0]
+                        d = s.recv(1 << 20, socket.MSG_DONTWAIT) if ready else None
+                    except (BlockingIOError, InterruptedError):
                         d = None
-                    except OSError as e:
+                    except (OSError, ValueError) as e:
                         self.err = e
                         return
                     if d == b"":
@@ -884,15 +885,23 @@ class Tcp:
                 r.start()
             return rs
 
+        dropped = {}
+
         def finish(rs):
             for c, r in rs.items():
                 r.stop.set()
-                conns[c].s.sendall(conns[c].encode(["PING"]))
+                try:
+                    conns[c].s.sendall(conns[c].encode(["PING"]))
+                except OSError as e:
+                    dropped.setdefault(c, "send: %s" % e)
             for c, r in rs.items():
                 r.join(120)
                 raw[c].extend(r.chunks)
-            return [r.err for r in rs.values() if r.err is not None]
+                if r.err is not None:
+                    dropped.setdefault(c, "%s: %s" % (type(r.err).__name__, r.err))
 
+        for cl in conns.values():
+            cl.s.settimeout(120)
         rs = phase(list(conns), {c: slow_delay for c in slow})
         i = 0
         while i < len(msgs):
@@ -908,24 +917,30 @@ class Tcp:
             cl.s.sendall(b"".join(cl.encode(["PUBLISH", ch, payload]) for _, ch, payload in msgs[i:j]))
             i = j
         pubs = sorted(set(m[0] for m in msgs))
-        errs = finish({c: rs[c] for c in pubs})                       # every PUBLISH has been executed
-        errs += finish({c: r for c, r in rs.items() if c not in pubs})
-        again = phase(pubs, {})                                       # what reached the publishers after their PONG
-        errs += finish(again)
+        finish({c: rs[c] for c in pubs})                       # every PUBLISH has been executed
+        finish({c: r for c, r in rs.items() if c not in pubs})
+        finish(phase([c for c in pubs if c not in dropped], {}))   # what reached the publishers after their PONG
         replies, got = {}, {}
         for c, cl in conns.items():
+            cl.s.settimeout(cl.timeout)
             cl.buf = b"".join(raw[c])
             evs = []
-            while cl.buf:
-                e = frame_event(cl.read_reply(timeout=0.5))
-                if e != "pong":
-                    evs.append(e)
+            try:
+                while cl.buf:
+                    e = frame_event(cl.read_reply(timeout=0.3))
+                    if e != "pong":
+                        evs.append(e)
+            except (TimeoutError, self.srvmod.Closed, OSError):
+                if c not in dropped:
+                    raise self.srvmod.ProtocolError("connection %d: the bytes read end inside a frame (%d bytes left over)" % (c, len(cl.buf)))
             replies[c] = [e for e in evs if e.startswith("n:")]
             if c != AUX:
                 got[c] = [e for e in evs if not e.startswith("n:")]
-        if errs:
-            raise self.srvmod.Closed("during a backlog: %s" % errs[0])
-        return replies, got
+        if AUX in dropped or any(c in dropped for c in pubs):
+            raise self.srvmod.Closed("a publisher's connection was closed during a backlog: %s" % dropped)
+        for c in dropped:
+            self.socks.pop(c).close()
+        return replies, got, dropped
 
     def reset(self):
         """leave cleanly (so that nothing of this history stays subscribed on the server)"""
@@ -1233,12 +1248,13 @@ def burst_step(check, tcp, i, op, orc, prev, seen, fails, dis, record, bidx):
         msgs.append((pc, ch, real))
         lines.append((pc, op_line(("pub", pc, ch, tok), check.dedup)))
         seen.add(ch)
-    replies, got = tcp.burst(msgs, slow)
-    want_c, want_s = {}, {}
+    replies, got, dropped = tcp.burst(msgs, slow)
+    want_c, want_s, lo_s = {}, {}, {}
     for pc, l in lines:
         m = split_cs(check.ask_model(l), ("C", "S"))
         want_c.setdefault(pc, []).append("n:%d" % len(parse_dels(m["C"])))
         want_s.setdefault(pc, []).append("n:%d" % len(parse_dels(m["S"])))
+        lo_s.setdefault(pc, []).append(sum(1 for d in parse_dels(m["S"]) if d[0] not in dropped))
     total = sum(x[2] for x in specs)
     if record:
         rep.evaluations += len(specs)
@@ -1249,8 +1265,19 @@ def burst_step(check, tcp, i, op, orc, prev, seen, fails, dis, record, bidx):
             rep.count("tcp.burst.size.%s" % ("<=64B" if size <= 64 else "<=64KiB" if size <= 65536 else "<=2MiB" if size <= (2 << 20) else ">2MiB"))
         rep.nontrivial(("tcp-burst", min(len(specs), 2000) // 500, max(x[2] for x in specs).bit_length() // 4, len(slow), len(set(x[0] for x in specs))))
     base = {"i": i, "op": line, "layer": "tcp"}
+    if dropped and record:
+        # the server gives up on a client whose socket stayed unwritable through 5 attempts of one flush (about 100 ms,
+        # however fast the client reads) and closes it: from then on it is a disconnected client, which must have read
+        # an intact prefix of what was due
+        rep.count("tcp.burst.server-closed-a-lagging-subscriber", len(dropped))
     for pc in want_s:
         r = replies.get(pc, [])
+        if dropped:
+            ok = len(r) == len(want_s[pc]) and all(lo <= int(a[2:]) <= int(b[2:]) for a, b, lo in zip(r, want_s[pc], lo_s[pc]))
+            if not ok:
+                fails.append(dict(base, kind="publish", shape="burst", conn=pc, impl="|".join(r[:8]) or ".", want="|".join(want_s[pc][:8]) or ".",
+                                  why="replies to pipelined PUBLISHes of connection %d are outside what the subscribers (one of which the server closed meanwhile) allow" % pc))
+            continue
         if r != want_s[pc]:
             k = first_diff(r, want_s[pc])
             fails.append(dict(base, kind="publish", shape="burst", conn=pc, impl="|".join(r[k:k + 6]) or ".", want="|".join(want_s[pc][k:k + 6]) or ".",
@@ -1279,6 +1306,16 @@ def burst_step(check, tcp, i, op, orc, prev, seen, fails, dis, record, bidx):
             rep.evaluations += 1
             if x in slow and n_due:
                 rep.count("tcp.burst.backlog-frames-read-late", n_due)
+        if x in dropped:
+            # closed by the server in the middle of the backlog: publisher by publisher an intact prefix
+            for pc, a in real.items():
+                b = es.get(pc, [])
+                if not (a == b[:len(a)] or (a[:-1] == b[:len(a) - 1] and a[-1] in b)):
+                    k = first_diff(a, b)
+                    fails.append(dict(base, kind="stream", shape="backlog", conn=x, publisher=pc, frames_read=n_real, frames_due=n_due, first_difference_at=k,
+                                      impl="|".join(map(short, a[k:k + 4])) or ".", want="|".join(map(short, b[k:k + 4])) or ".",
+                                      why="subscriber %d, which the server closed during the backlog, did not read an intact prefix of publisher %s's messages" % (x, pc)))
+            continue
         if real != es:
             pc = next(k for k in sorted(set(real) | set(es), key=str) if real.get(k) != es.get(k))
             a, b = real.get(pc, []), es.get(pc, [])
@@ -1291,6 +1328,14 @@ def burst_step(check, tcp, i, op, orc, prev, seen, fails, dis, record, bidx):
         elif real != ec:
             pc = next(k for k in sorted(set(real) | set(ec), key=str) if real.get(k) != ec.get(k))
             dis.append(dict(base, conn=x, publisher=pc, impl="|".join(map(short, real.get(pc, [])[:4])) or ".", code="|".join(map(short, ec.get(pc, [])[:4])) or "."))
+    for x in sorted(dropped):
+        if x in (1, 2, 3, 4):
+            check.ask_model("disc %d" % x)
+            orc.disc(x)
+            for y in (1, 2, 3, 4):
+                recv_diff(check, prev, y)
+    if dropped:
+        tcp.settle()
     return bidx + len(specs)
 
 
@@ -1589,16 +1634,17 @@ def pipeline_corpus():
 def backlog_corpus(tier):
     """[(tag, history)]: slow subscribers (a channel and a pattern subscriber that read nothing during the burst) and a
     fast one on the same channel; several publishers; one very large message, a ladder of sizes, many small messages"""
-    setup = [("sub", 1, "c", [b"big"]), ("sub", 2, "p", [b"b*"]), ("sub", 3, "c", [b"big"]), ("sub", 3, "p", [b"*g"])]
-    out = [("tcp-backlog-16MiB", setup + [("burst", [1, 2], [(4, b"big", 8), (AUX, b"big", 16 << 20), (4, b"big", 5)]),
+    setup1 = [("sub", 1, "c", [b"big"]), ("sub", 2, "p", [b"b*"]), ("sub", 3, "c", [b"big"])]
+    setup = setup1 + [("sub", 3, "p", [b"*g"])]
+    out = [("tcp-backlog-16MiB", setup1 + [("burst", [1, 2], [(4, b"big", 8), (AUX, b"big", 16 << 20), (4, b"big", 5)]),
                                           ("pub", 4, b"big", b"after"), ("unsub", 1, "c", None)]),
-           ("tcp-backlog-ladder", setup + [("burst", [1, 2], [(p, b"big", n) for n, p in zip([1, 2, 64, 65, 1000, 65536, 1 << 20, 4 << 20, 3, 2 << 20], [4, AUX, 3, 4, AUX, 3, 4, AUX, 3, 4])]),
+           ("tcp-backlog-ladder", setup1 + [("burst", [1, 2], [(p, b"big", n) for n, p in zip([1, 2, 64, 65, 1000, 65536, 1 << 20, 4 << 20, 3, 2 << 20], [4, AUX, 3, 4, AUX, 3, 4, AUX, 3, 4])]),
                                            ("pub", 4, b"big", b"after")]),
            ("tcp-backlog-many-small", setup + [("burst", [1, 2], [((4, AUX, 3)[k % 3], b"big", 4096 + k % 7) for k in range(1500)]),
                                                ("pub", 4, b"big", b"after"), ("disc", 1, "close"), ("pub", 4, b"big", b"x")])]
     if tier == "thorough":
-        out.append(("tcp-backlog-2x16MiB", setup + [("burst", [1, 2], [(4, b"big", 16 << 20), (AUX, b"big", 8 << 20), (3, b"big", 16 << 20), (4, b"big", 1)]),
-                                                    ("pub", 4, b"big", b"after")]))
+        out.append(("tcp-backlog-16+8MiB", setup1 + [("burst", [1, 2], [(4, b"big", 16 << 20), (4, b"big", 1)]), ("burst", [2], [(AUX, b"big", 8 << 20), (3, b"big", 3)]),
+                                                     ("pub", 4, b"big", b"after")]))
         out.append(("tcp-backlog-many-small", setup + [("burst", [2], [((4, AUX, 1)[k % 3], b"big", 200 + k % 11) for k in range(20000)]),
                                                        ("pub", 4, b"big", b"after")]))
     return out
